@@ -206,9 +206,17 @@ def run(ctx):
     sims = []
     s = ctx.model('Gen_Keyring', 'Gen_KeyringSim', simulate='num=%d' % (300 if ctx.quick else 3000), depth=26, seed=ctx.seed + 1, workers=1)
     sims = sorted({tuple(tuple(st) for st in p[1]) for p in s.prints if isinstance(p, list) and p and p[0] == 'BEH'})
+    # one shortest history to every distinct state of the ALGORITHM spec (every reachable alias-layer configuration)
+    sc = ctx.model('Gen_KeyringImpl', workers=1)
+    cover = sorted({tuple(tuple(st) for st in p[1]) for p in sc.prints if isinstance(p, list) and p and p[0] == 'BEH'})
+    cover = [b for b in cover if len(b) >= 5 and (len(b) <= 5 or not ctx.quick)]
+    ctx.extra['state_coverage_histories'] = len(cover)
     U = Universe()
     tmp = tempfile.mkdtemp(prefix='kr-', dir=ctx.work)
     traces = []
+    for b in cover:
+        traces.append(replay_behaviour(U, b, tmp))
+        ctx.case(('cover', b))
     for b in sorted(set(behs)):
         traces.append(replay_behaviour(U, b, tmp))
         ctx.case(('beh', b))
